@@ -114,6 +114,9 @@ def call_sites(ctx):
         while not p or " " in p or p.startswith("%") or p.rstrip("/") == "":
             p = gen_path(rng, 0.8)
         site = rng.choice(["Yaml", "ConfigMap", "EnvironmentFile", "Volume", "Mount", "WorkDirYaml"])
+        if site in ("Volume", "Mount"):
+            # "a source that starts with '.'": ./x, ../x, .hidden/x, .. -- all of them are relative paths
+            p = rng.choice(["./", "./", "../", ".h/", "../../", "./../"]) + p.lstrip("/") if rng.random() < 0.9 else rng.choice(["..", ".", "../..", ".h"])
         work.append((site, D, p))
     cases = []
     for site, D, p in work:
@@ -126,9 +129,9 @@ def call_sites(ctx):
         elif site == "EnvironmentFile":
             cases.append(case_line("convert", "0", D + "/c.container", "[Container]\nImage=i\nEnvironmentFile=%s\n" % p))
         elif site == "Volume":
-            cases.append(case_line("convert", "0", D + "/c.container", "[Container]\nImage=i\nVolume=%s:/dst\n" % ("./" + p.lstrip("/"))))
+            cases.append(case_line("convert", "0", D + "/c.container", "[Container]\nImage=i\nVolume=%s:/dst\n" % p))
         else:
-            cases.append(case_line("convert", "0", D + "/c.container", "[Container]\nImage=i\nMount=type=bind,source=%s,target=/dst\n" % ("./" + p.lstrip("/"))))
+            cases.append(case_line("convert", "0", D + "/c.container", "[Container]\nImage=i\nMount=type=bind,source=%s,target=/dst\n" % p))
     d1 = tempfile.mkdtemp(prefix="qv-cwd-")
     try:
         o1 = vlib.run_impl(cases, {"VERIF_CWD": "/"})
@@ -147,7 +150,7 @@ def call_sites(ctx):
             ctx.count("callsite_not_converted")
             continue
         argv = vlib.sd_split_many([vlib.entries(rec, "Service", "ExecStart")[0].encode()])[0]
-        pp = p if site not in ("Volume", "Mount") else "./" + p.lstrip("/")
+        pp = p
         want = expected(pp, D)
         bad = None
         if site == "Yaml" and argv[-1] != want:
